@@ -143,6 +143,9 @@ func (p *property) CreateField() (Field, error) {
 	if p.hasValue {
 		return nil, fmt.Errorf("field %s is already set", p.schema.JSONName)
 	}
+	if err := p.propSet.oneofConflict(p); err != nil {
+		return nil, err
+	}
 	vv, err := p.propSet.buildOrCreate(p)
 	if err != nil {
 		return nil, err
@@ -349,6 +352,31 @@ func (fs *propSet) RangeValues(callback RangeValuesCallback) error {
 		if err != nil {
 			return err
 		}
+	}
+	return nil
+}
+
+// oneofConflict reports an error when another member of the proto oneof that
+// holds the property's field is already set: protoreflect would silently
+// clear it when the new member is stored.
+func (fs *propSet) oneofConflict(prop *property) error {
+	if len(prop.protoPath) == 0 || fs.value == nil {
+		return nil
+	}
+	msg := fs.value
+	for _, step := range prop.protoPath[:len(prop.protoPath)-1] {
+		if !msg.Has(step) {
+			return nil
+		}
+		msg = msg.Get(step).Message()
+	}
+	field := prop.protoPath[len(prop.protoPath)-1]
+	oneof := field.ContainingOneof()
+	if oneof == nil || oneof.IsSynthetic() {
+		return nil
+	}
+	if set := msg.WhichOneof(oneof); set != nil && set.Number() != field.Number() {
+		return fmt.Errorf("field %s conflicts with %s, both are members of oneof %s", prop.schema.JSONName, set.JSONName(), oneof.Name())
 	}
 	return nil
 }
